@@ -680,8 +680,12 @@ func (sema *ExprSemanticsChecker) checkArrayDeref(n *ArrayDerefNode) ExprType {
 		// For strict object at receiver of .*
 		found := false
 		for _, t := range ty.Props {
-			if _, ok := t.(*ObjectType); ok {
+			switch t.(type) {
+			case *ObjectType, AnyType:
+				// any type value may be an object so it must not cause an error
 				found = true
+			}
+			if found {
 				break
 			}
 		}
